@@ -496,6 +496,8 @@ class ITerm2Image(GraphicsImage, metaclass=ITerm2ImageMeta):
     def is_supported(cls):
         if cls._supported is None:
             cls._supported = False
+            # May have been set by an earlier (non-definite) determination
+            cls._TERM = cls._TERM_VERSION = ""
 
             name, version = get_terminal_name_version()
             if name in {"iterm2", "konsole", "wezterm"}:
